@@ -57,10 +57,10 @@ def slice_pad_clause(model, rep, funcs):
             return
         rep.instance("A.slicepad", f"{f.loc(st)} path[{pcdesc}]")
         tag = f" on path [{pcdesc}]"
-        e1 = dom.add(a, dom.neg(p0)).equals(z0)
+        e1 = dom.proves_equal(dom.add(a, dom.neg(p0)), z0, pcs, extra=pre)
         rep.ob("A", where, "slice.start - pad_before == z0 (padding keeps tomogram voxel t at sub-image index t - z0)" + tag, e1,
                f"slice.start - pad_before = {dom.add(a, dom.neg(p0))!r}", node=st, fn=f, clause="1 window")
-        e2 = dom.add(b, p1).equals(z1)
+        e2 = dom.proves_equal(dom.add(b, p1), z1, pcs, extra=pre)
         rep.ob("A", where, "slice.stop + pad_after == z1" + tag, e2, f"slice.stop + pad_after = {dom.add(b, p1)!r}", node=st, fn=f,
                clause="1 window")
         goal = dom.add(b, dom.neg(a)).poly() - Poly.const(1)
